@@ -91,6 +91,19 @@ func (a *App) Schema() []byte {
 	return data
 }
 
+// evaluateProducer returns the artifact of a producer. Nodes panic when they
+// can't be evaluated (an input that isn't connected is a nil pointer
+// dereference): for the commands that is an error naming the producer, as it
+// is for the server's endpoints, not a stack trace.
+func evaluateProducer(g *graph.Instance, name string) (art artifact.Artifact, err error) {
+	defer func() {
+		if r := recover(); r != nil {
+			err = fmt.Errorf("unable to evaluate producer %q: %v", name, r)
+		}
+	}()
+	return g.Artifact(name), nil
+}
+
 func writeProducersToZip(path string, graph *graph.Instance, zw *zip.Writer) error {
 	if graph == nil {
 		panic("can't zip nil graph")
@@ -104,7 +117,11 @@ func writeProducersToZip(path string, graph *graph.Instance, zw *zip.Writer) err
 	names := graph.ProducerNames()
 	artifacts := make([]artifact.Artifact, len(names))
 	for i, file := range names {
-		artifacts[i] = graph.Artifact(file)
+		art, err := evaluateProducer(graph, file)
+		if err != nil {
+			return err
+		}
+		artifacts[i] = art
 	}
 
 	for i, file := range names {
@@ -170,7 +187,11 @@ func (a App) Generate(outputPath string) error {
 	names := a.graphInstance.ProducerNames()
 	artifacts := make([]artifact.Artifact, len(names))
 	for i, name := range names {
-		artifacts[i] = a.graphInstance.Artifact(name)
+		art, err := evaluateProducer(a.graphInstance, name)
+		if err != nil {
+			return err
+		}
+		artifacts[i] = art
 	}
 
 	for i, name := range names {
